@@ -1,5 +1,5 @@
 #!/bin/sh
-# Creates /verif/harness/_third_party/sqlite: a copy of the crawshaw.io/sqlite
+# Creates <verif>/harness/_third_party/sqlite (next to this script's parent): a copy of the crawshaw.io/sqlite
 # module (from the offline module cache) whose GC finalizer closes a leaked
 # connection instead of panicking. LoadLog leaks its two cache connections when
 # it fails after opening them; the real server exits at that point, but a
@@ -7,7 +7,7 @@
 # finalizer's panic. Only the harness build uses this copy; /repo is untouched.
 set -e
 SRC=/root/go/pkg/mod/crawshaw.io/sqlite@v0.3.3-0.20220618202545-d1964889ea3c
-DST=/verif/harness/_third_party/sqlite
+DST="$(cd "$(dirname "$0")/.." && pwd)/harness/_third_party/sqlite"
 if [ -f "$DST/.verif-patched" ]; then exit 0; fi
 rm -rf "$DST"; mkdir -p "$(dirname "$DST")"
 cp -r "$SRC" "$DST"; chmod -R u+w "$DST"
